@@ -159,7 +159,7 @@ def variant(draw, base_spec, all_specs) -> tuple[str, str]:
                                  "invalid_header", "invalid_dup_tempo", "invalid_midway", "invalid_midway",
                                  "song_dup", "song_dup", "song_perm", "same", "unrelated", "same_size", "same_size",
                                  "twin_track", "twin_track", "twin_events", "unknown_section", "unknown_section",
-                                 "fewer_sections", "other_headers"]))
+                                 "fewer_sections", "other_headers", "sync_extreme", "sync_extreme"]))
     spec = copy.deepcopy(base_spec)
     if kind == "res":
         res = spec["res"]
@@ -214,6 +214,15 @@ def variant(draw, base_spec, all_specs) -> tuple[str, str]:
         k = draw(st.integers(0, len(hs) - 1))
         spec["tracks"] = {hs[(k + 7 * j) % len(hs)]: items for j, items in enumerate(spec["tracks"].values())}
         spec.pop("order", None)
+    elif kind == "sync_extreme":
+        # corner values in [SyncTrack] (whatever a parse learns from one chart must not colour the next):
+        # time-signature exponents up to 16, numerators 0 / 255, extreme tempos, anchors
+        last = max(it[0] for it in spec["sync"])
+        spec["sync"] = list(spec["sync"]) + [
+            [last + 1, "TS", draw(st.sampled_from([7, 0, 255, 3])), draw(st.sampled_from([7, 8, 16, 0, 6]))],
+            [last + 2, "TS", 4, draw(st.sampled_from([None, 3, 7]))],
+            [last + 3, "B", draw(st.sampled_from([1, 10 ** 9, 999, 120000]))],
+            [last + 3, "A", draw(st.sampled_from([0, 1, 10 ** 12]))]]
     elif kind == "same_size":
         # another chart whose text has exactly the same length (one lane digit changed)
         for h, items in spec["tracks"].items():
@@ -419,9 +428,24 @@ def fixed_cases(ctx: Ctx):
     yield {"texts": texts, "ops": ops}
     yield {"texts": list(reversed(texts)), "ops": [["parse", 3, None], ["parse", 2, None],
                                                    ["threads", [[3, None], [2, None]], "coop", [[0, 1], [1, 1]]]]}
+    # two charts that differ in nothing but the resolution, chosen so that the strum/HOPO outcome differs
+    # (threshold 64 vs 32 ticks); sequentially in both orders, then interleaved at several granularities
+    # (the cooperative schedule repeats, so the two parses alternate from their first to their last line)
+    d = copy.deepcopy(a)
+    d["res"] = 96
+    e = copy.deepcopy(a)
+    e["res"] = 480
+    texts2 = [S.render(a), S.render(d), S.render(e)]
+    yield {"texts": texts2, "ops": [["parse", 0, None], ["parse", 1, None], ["parse", 0, None], ["parse", 2, None],
+                                    ["parse", 1, None]]}
+    for run in (1, 5, 17, 100, 1000):
+        yield {"texts": texts2, "ops": [["threads", [[0, None], [1, None]], "coop", [[0, run], [1, run]]],
+                                        ["threads", [[1, None], [2, None], [0, None]], "coop",
+                                         [[0, run], [1, run + 3], [2, run]]]]}
+    yield {"texts": texts2, "ops": [["threads", [[0, None], [1, None], [2, None], [1, None]], "os", []]]}
 
 
 PARTS: list[Part] = [
-    enum_part("fixed", fixed_cases, check_history, {"quick": 2, "thorough": 2}),
+    enum_part("fixed", fixed_cases, check_history, {"quick": 4, "thorough": 4}),
     custom_part("machine", drive_machine, check_history, {"quick": 12, "thorough": 16}),
 ]
